@@ -98,11 +98,25 @@ def main():
                 "<<" + ", ".join(tla_rec(s) for s in t["steps"]) + ">>" for t in ts) + "\n>>\n====\n"
         tcfg = ("CONSTANTS K = %d Closes = {1} Num = 1 Den = 4 Depth = 0\nINIT TraceInit\nNEXT TraceNext\n"
                 "INVARIANTS Accepted\nCHECK_DEADLOCK FALSE\n" % k)
-        r = vlib.run_tlc({"Combinators.tla": None, "CombinatorsTrace.tla": None, "TraceData.tla": data(traces)},
+        # binding self-test: copies of the first traces with one combinator output altered in the middle must be rejected
+        import copy
+        corrupt = []
+        for t in traces[:3]:
+            if t["kind"] != "macdrsi" and len(t["steps"]) >= 4:
+                for field in ("and", "split", "nl"):
+                    c = copy.deepcopy(t)
+                    st = c["steps"][len(c["steps"]) // 2]
+                    st[field] = 1 if st[field] != 1 else -1
+                    corrupt.append(c)
+        nreal_tr = len(traces)
+        r = vlib.run_tlc({"Combinators.tla": None, "CombinatorsTrace.tla": None, "TraceData.tla": data(traces + corrupt)},
                          "CombinatorsTrace", tcfg, workers=1, timeout=1800, heap="4g")
         states += r.distinct
         trans += r.generated
         acc = {o["tr"] for t, o in r.prints if t == "ACC"}
+        if any((nreal_tr + 1 + i) in acc for i in range(len(corrupt))):
+            raise vlib.Machinery("CombinatorsTrace accepts a corrupted trace: the trace specification binds nothing")
+        rejected_corrupt = len(corrupt)
         for i, t in enumerate(traces):
             if (i + 1) not in acc:
                 # find how far it got: rerun that trace alone with progress output
@@ -130,7 +144,7 @@ def main():
                 "replayed on the real And/Or/Majority/Split/Inverse/NoLoss/StopLoss/NoLoss(StopLoss) around scripted stubs; "
                 "code->model: %d random words of length %d and %d MACD-RSI runs validated by TLC; every history is non-trivial "
                 "(each step changes some standing recommendation or position)" % (nt, ln, nt),
-        "exhaustive": True, "model_violations": model_viol, "known_findings_hit": V.hit}, time.time() - t0, len(V.new),
+        "exhaustive": True, "model_violations": model_viol, "corrupted_traces_rejected": rejected_corrupt, "known_findings_hit": V.hit}, time.time() - t0, len(V.new),
         assumptions=["stub strategies replay a word position by position (they consume every snapshot)",
                      "closes on an integer lattice and dyadic percentages make the threshold arithmetic exact"])
     if rc == 0 and machinery:
